@@ -118,6 +118,22 @@ func GenBase(r *rng.R, c Cfg) *World {
 				w.Workloads[i].Name = w.Workloads[0].Name
 				w.Workloads[i].Kind, w.Workloads[i].Replicas = w.Workloads[0].Kind, nil
 				w.Workloads[i].OwnerKind, w.Workloads[i].NPods = w.Workloads[0].OwnerKind, w.Workloads[0].NPods
+				if r.P(0.5) { // true twins: also the same labels; they differ in their namespace and in the numbers behind their port names
+					w.Workloads[i].Labels = map[string]string{}
+					for k, v := range w.Workloads[0].Labels {
+						w.Workloads[i].Labels[k] = v
+					}
+					w.Workloads[i].Ports = nil
+					for pi, cp := range w.Workloads[0].Ports {
+						cp.Num = []int{9090, 9091, 9092, 9093}[pi%4]
+						w.Workloads[i].Ports = append(w.Workloads[i].Ports, cp)
+					}
+					if len(w.Workloads[0].Ports) == 0 {
+						w.Workloads[0].Ports = []CPort{{Num: 8080, Name: "http"}}
+						w.Workloads[i].Ports = []CPort{{Num: 9090, Name: "http"}}
+					}
+					w.AddFeature("sharedNamesTrueTwins")
+				}
 				w.AddFeature("sharedNames")
 				break
 			}
@@ -526,6 +542,10 @@ func GenAdmin(r *rng.R, w *World, c Cfg, minANP, maxANP int, pBANP float64) {
 		w.BANP = &BANP{Name: "default", Subject: GenSubject(r, w)}
 		w.BANP.Ingress = GenANPRules(r, w, c, true, 3)
 		w.BANP.Egress = GenANPRules(r, w, c, true, 3)
+	}
+	if n > 0 && w.BANP != nil && r.P(0.2) { // an AdminNetworkPolicy may carry the one name the BaselineAdminNetworkPolicy must carry
+		w.ANPs[len(w.ANPs)-1-r.Intn(n)].Name = "default"
+		w.AddFeature("anpNamedDefault")
 	}
 	TagAdminFeatures(w)
 }
